@@ -138,6 +138,33 @@ func (in *Interp) intrinsic(fn *ssa.Function, args []Val) (Val, bool) {
 			}
 		}
 		return Val{c: ^uint64(0)}, true
+	case "errors.Is":
+		// model: walk the Unwrap chain comparing with == (custom Is methods are not modelled)
+		cur := args[0]
+		for depth := 0; depth < 8; depth++ {
+			eq := in.ifaceEq(cur, args[1])
+			if eq.x != nil {
+				in.end("unsupported", "errors.Is on symbolic error values")
+			}
+			if eq.c != 0 {
+				return Val{c: 1}, true
+			}
+			ifc, _ := cur.x.(*Iface)
+			if ifc == nil {
+				return Val{}, true
+			}
+			ms := in.prog.prog.MethodSets.MethodSet(ifc.typ)
+			sel := ms.Lookup(nil, "Unwrap")
+			if sel == nil {
+				return Val{}, true
+			}
+			fnU := in.prog.prog.MethodValue(sel)
+			if fnU == nil || fnU.Signature.Results().Len() != 1 {
+				return Val{}, true
+			}
+			cur = in.call(fnU, []Val{ifc.val}, nil)
+		}
+		return Val{}, true
 	case "runtime.KeepAlive", "runtime.GC", "runtime.SetFinalizer", "internal/race.Enabled":
 		return Val{}, true
 	case "internal/abi.NoEscape", "internal/abi.Escape":
